@@ -4,6 +4,7 @@ import EtkVerif.Driver.HexCmd
 import EtkVerif.Driver.AnnCmd
 import EtkVerif.Driver.SmtCmd
 import EtkVerif.Driver.CfgCmd
+import EtkVerif.Driver.AsmCmd
 open EtkVerif.Driver
 
 def dispatch (line : String) : String :=
@@ -17,6 +18,7 @@ def dispatch (line : String) : String :=
     else if cmd == "ann" then cmdAnn args
     else if cmd == "smt" then cmdSmt args
     else if cmd == "cfg" then cmdCfg args
+    else if cmd == "asm" then cmdAsm args
     else s!"bad-op {cmd}"
   | [] => "bad-op"
 
